@@ -17,6 +17,8 @@ type GRule struct {
 	Srv    []string
 	Extra  string // unknown extra XML
 	LogEnd string
+	// Attributes with a fixed default in the target; edits vary them.
+	App, RuleType, LogStart, LogSetting string
 }
 
 type GVsys struct {
@@ -50,7 +52,17 @@ func (v *GVsys) XML(device bool) string {
 		list("source", r.Src)
 		list("destination", r.Dst)
 		list("service", r.Srv)
-		b.WriteString(`<application><member>any</member></application><rule-type>interzone</rule-type><log-start>yes</log-start>`)
+		or := func(v, d string) string {
+			if v == "" {
+				return d
+			}
+			return v
+		}
+		fmt.Fprintf(&b, `<application><member>%s</member></application><rule-type>%s</rule-type><log-start>%s</log-start>`,
+			or(r.App, "any"), or(r.RuleType, "interzone"), or(r.LogStart, "yes"))
+		if r.LogSetting != "" {
+			fmt.Fprintf(&b, `<log-setting>%s</log-setting>`, r.LogSetting)
+		}
 		if r.LogEnd != "" {
 			fmt.Fprintf(&b, `<log-end>%s</log-end>`, r.LogEnd)
 		}
@@ -382,7 +394,21 @@ func (g *Gen) Device(t []*GVsys, nedits int) ([]*GVsys, []string) {
 		case 11: // rule attribute changed
 			if len(v.Rules) > 0 {
 				r := v.Rules[g.Rng.Intn(len(v.Rules))]
-				switch g.Rng.Intn(4) {
+				switch g.Rng.Intn(11) {
+				case 9:
+					r.From = "z9"
+				case 10:
+					r.To = "z9"
+				case 4:
+					r.Action = map[string]string{"allow": "drop", "drop": "allow", "deny": "allow"}[r.Action]
+				case 5:
+					r.App = "ssl"
+				case 6:
+					r.RuleType = "universal"
+				case 7:
+					r.LogStart = "no"
+				case 8:
+					r.LogSetting = "old-profile"
 				case 0:
 					r.From, r.To = r.To, r.From
 				case 1:
